@@ -68,3 +68,32 @@ Theorem C02_physical_index_across_sessions :
   gst_rel PR (lfinal phys_ops P s1 l) (lfinal Index.chain_ops P s2 l).
 Proof. exact phys_sessions. Qed.
 Print Assumptions C02_physical_index_across_sessions.
+
+(* ---- the database on the bucket CHAINS (index.go's layout) and on the physical index: Close then Open
+   answers exactly as before, without recovery (transferred from the flat instance, DBSimSessions.v);
+   and whole session runs (operations, Close, Open, kill between operations) refine the
+   specification "plain map + mode {open, closed, crashed}" *)
+From Pogreb Require Import DBRun DBSimSessions.
+Theorem C02_clean_restart_on_the_real_index :
+  forall P seed (sp : @DB.st Index.pindex) (sf : @DB.st Flat.flat) m,
+  params_ok P -> st_rel sp sf -> Inv P sf -> s_mem sf = Some m -> MetaOK sf ->
+  let '(sp1, o1) := db_close Index.chain_ops sp in
+  let '(sp2, o2) := db_open Index.chain_ops P seed (clear_trace sp1) in
+  o1 = OOk /\ o2 = OOpened false /\
+  answers P sp (abs (s_disk sf)) /\ answers P sp2 (abs (s_disk sf)) /\
+  exists sf2, st_rel sp2 sf2 /\ Inv P sf2 /\ MetaOK sf2 /\ s_mem sf2 <> None /\
+              meq (abs (s_disk sf2)) (abs (s_disk sf)).
+Proof. exact chain_close_reopen_ok. Qed.
+Print Assumptions C02_clean_restart_on_the_real_index.
+
+Theorem C02_sessions_on_the_physical_index :
+  forall P (l : list lop) (s1 : @DB.st phys) (sp : @DB.st Index.pindex) (sf : @DB.st Flat.flat),
+  params_ok P -> gst_rel PR s1 sp -> st_rel sp sf -> J P sf -> lsides P sf l ->
+  Forall2 out_equiv (lrun phys_ops P s1 l) (lrun Flat.flat_ops P sf l) /\
+  Forall2 out_equiv' (lrun phys_ops P s1 l) (lrun_spec (abs (s_disk sf), mode_of sf) l) /\
+  lrun phys_ops P s1 l = lrun Index.chain_ops P sp l /\
+  gst_rel PR (lfinal phys_ops P s1 l) (lfinal Index.chain_ops P sp l) /\
+  st_rel (lfinal Index.chain_ops P sp l) (lfinal Flat.flat_ops P sf l) /\
+  J P (lfinal Flat.flat_ops P sf l).
+Proof. exact phys_sessions_flat. Qed.
+Print Assumptions C02_sessions_on_the_physical_index.
